@@ -166,6 +166,28 @@ let rec has_hash (v : value) : bool =
   | VArr l -> List.exists has_hash l
   | _ -> false
 
+let rec canon_j (j : jvalue) : string =
+  match j with
+  | JInt z -> "I " ^ string_of_z z
+  | JUint z -> "U " ^ string_of_z z
+  | JFloat (sci, b) ->
+    let bs = string_of_z b in
+    Printf.sprintf "F %s %d" bs (if sci && not (is_inf_bits bs) then 1 else 0)
+  | JNaN -> "F nan 0"
+  | JBool b -> if b then "B 1" else "B 0"
+  | JNil -> "N"
+  | JStr s -> enc_runes "S" s
+  | JArr l -> String.concat " " (["A"; string_of_int (List.length l)] @ List.map canon_j l)
+  | JHash kvs ->
+    String.concat " " (["H"; string_of_int (List.length kvs)] @
+                       List.map (fun (k, x) -> (match k with JKSym n -> enc_runes "Y" n | JKStr s -> enc_runes "S" s) ^ " " ^ canon_j x) kvs)
+
+(* the ParseFloat oracle of a case: the table of the floats that occur in it *)
+let pf_oracle (text : z list) : z option =
+  match List.assoc_opt (items_str text) !float_tab with
+  | Some "nan" | Some "err" | None -> None
+  | Some b -> Some (z_of_string b)
+
 let status_str = function StDone -> "D" | StMore -> "M" | StErr -> "E" | StCrash -> "P" | StFuel -> "FUEL"
 
 (* ---- literals ---- *)
@@ -258,7 +280,12 @@ let () =
              let text = print is_print v in
              let (st, ex) = read text in
              let r = String.concat " | " (status_str st :: List.map canon_sexp ex) in
-             let m = "P=" ^ items_str text ^ " ;; R=" ^ r ^ (if !bad_tok then " ;; BADTOK" else "") in
+             let ev =
+               if j <> "1" then "-" else
+               (match st, ex with
+                | StDone, [e] -> (match eval_json_like pf_oracle e with Some jv -> canon_j jv | None -> "ERROR")
+                | _ -> "ERROR") in
+             let m = "P=" ^ items_str text ^ " ;; R=" ^ r ^ " ;; EV=" ^ ev ^ (if !bad_tok then " ;; BADTOK" else "") in
              let cv = canon_value v in
              let spec = "R=" ^ (if has_hash v then "-" else "D | " ^ cv) ^ " ;; E=" ^ (if j = "1" then cv else "-") in
              (m, spec)
